@@ -141,7 +141,14 @@ func WithVars(vars map[string]any) QueryOption {
 	}
 }
 
-func New(data Map, query string, options ...QueryOption) (*Query, error) {
+func New(data Map, query string, options ...QueryOption) (_ *Query, err error) {
+	// joins, derived tables, CTEs and UNION branches are evaluated while the
+	// query is built; a panic there is reported like any other failure
+	defer func() {
+		if r := recover(); r != nil {
+			err = recovered(r)
+		}
+	}()
 	q := &Query{
 		offsetDefinition:    -1,
 		limitDefinition:     -1,
@@ -1816,7 +1823,7 @@ func ExecOrderBy(query *Query, current []any) ([]any, error) {
 func (query *Query) exec() (result any, err error) {
 	defer func() {
 		if r := recover(); r != nil {
-			err = r.(error)
+			result, err = nil, recovered(r)
 		}
 	}()
 	if query.dual {
@@ -1897,6 +1904,11 @@ FINALIZE:
 }
 
 func (query *Query) execAndPostProcess() (result any, err error) {
+	defer func() {
+		if r := recover(); r != nil {
+			result, err = nil, recovered(r)
+		}
+	}()
 	rs, err := query.exec()
 	if err != nil {
 		return nil, err
